@@ -731,7 +731,8 @@ TestMemoryAllocator g_custom_arr("Standard New [] Allocator", "new []", "delete 
 TestMemoryAllocator g_custom_mal("Standard Malloc Allocator", "malloc", "free");        // "equal type" is the name
 TestMemoryAllocator* custom(int f) { return f == NEW ? &g_custom_new : f == ARR ? &g_custom_arr : &g_custom_mal; }
 TestMemoryAllocator* current(int f) { return f == NEW ? getCurrentNewAllocator() : f == ARR ? getCurrentNewArrayAllocator() : getCurrentMallocAllocator(); }
-enum { S_DEF = 0, S_CUSTOM = 1, S_ACCT = 2, S_NULL = 3 };
+enum { S_DEF = 0, S_CUSTOM = 1, S_ACCT = 2, S_NULL = 3, S_SIM = 4 };     // S_NULL: NullUnknownAllocator installed explicitly (a family of its own,
+                                                                         // "Null Allocator"); S_SIM: the out-of-memory simulation's stand-in
 enum { O_SAVE, O_RESTORE, O_SETC0, O_SETC1, O_SETC2, O_SETD0, O_SETD1, O_SETD2, O_START, O_STOP, O_OVL_SAVEREST, O_OVL_OFFON, O_OVL_TS, O_OOM_ON, O_OOM_OFF, O_SETN0, O_SETN1, O_SETN2, O_COUNT };
 const char* OP_NAME[] = {"stash.save", "stash.restore", "setCurrentNewAllocator(custom)", "setCurrentNewArrayAllocator(custom)", "setCurrentMallocAllocator(custom)",
                          "setCurrentNewAllocatorToDefault", "setCurrentNewArrayAllocatorToDefault", "setCurrentMallocAllocatorToDefault", "accountant.start", "accountant.stop",
@@ -769,7 +770,7 @@ struct Routing {
         case O_OVL_SAVEREST: MemoryLeakWarningPlugin::saveAndDisableNewDeleteOverloads(); MemoryLeakWarningPlugin::restoreNewDeleteOverloads(); break;
         case O_OVL_OFFON: MemoryLeakWarningPlugin::turnOffNewDeleteOverloads(); MemoryLeakWarningPlugin::turnOnDefaultNotThreadSafeNewDeleteOverloads(); threadsafe_table = false; break;
         case O_OVL_TS: MemoryLeakWarningPlugin::turnOnThreadSafeNewDeleteOverloads(); threadsafe_table = true; break;
-        case O_OOM_ON: cpputest_malloc_set_out_of_memory(); null_used = true; if (!oom_has) { oom_has = true; oom_orig = slot[MAL]; } slot[MAL] = S_NULL; break;
+        case O_OOM_ON: cpputest_malloc_set_out_of_memory(); null_used = true; if (!oom_has) { oom_has = true; oom_orig = slot[MAL]; } slot[MAL] = S_SIM; break;
         case O_OOM_OFF: cpputest_malloc_set_not_out_of_memory(); slot[MAL] = oom_has ? oom_orig : S_DEF; oom_has = false; break;
         case O_SETN0: case O_SETN1: case O_SETN2: setcur(op - O_SETN0, NullUnknownAllocator::defaultAllocator()); null_used = true; slot[op - O_SETN0] = S_NULL; break;
         }
@@ -804,6 +805,7 @@ void routing_case(vf::Chooser& ch, int depth_before, int depth_between, int dept
     auto check_state = [&]() {
         for (int f = 0; f < 3; f++) {
             TestMemoryAllocator* c = current(f);
+            if (ro.slot[f] == S_SIM) continue;          // the stand-in of the simulation: neither its identity nor its names are asserted
             if (ro.slot[f] != S_NULL && strcmp(c->actualAllocator()->name(), defalloc(f)->name()) != 0) { bad_slot = true; pending("routing/current-allocator-of-another-family", f == NEW ? "the current new allocator is now '%s'" : f == ARR ? "the current new[] allocator is now '%s'" : "the current malloc allocator is now '%s'", c->actualAllocator()->name()); }
             else if (c != ro.expected(f)) { bad_slot = true; pending(ro.slot[f] == S_DEF ? "routing/default-allocator-not-current" : "routing/current-allocator-not-the-installed-one", "the current %s allocator is not the one the history installed", ALLOC_NAME[f]); }
         }
@@ -814,7 +816,7 @@ void routing_case(vf::Chooser& ch, int depth_before, int depth_between, int dept
         for (int i = 0; i < depth; i++) {
             int en[O_COUNT + 2], n = 0;
             for (int op = 0; op < O_COUNT; op++) if (ro.enabled(op)) en[n++] = op;
-            if (have_block && ro.slot[MAL] != S_NULL) { en[n++] = O_COUNT; en[n++] = O_COUNT + 1; }      // a reallocation of the block that fails
+            if (have_block && ro.slot[MAL] != S_NULL && ro.slot[MAL] != S_SIM) { en[n++] = O_COUNT; en[n++] = O_COUNT + 1; }      // a reallocation of the block that fails
                                                                  // (with the null allocator current realloc gives up before it looks at the block: not judged)
             int c = ch.choose(n + 1);
             if (c == 0) break;
@@ -843,7 +845,7 @@ void routing_case(vf::Chooser& ch, int depth_before, int depth_between, int dept
     g_window_inert = true; g_capture = true;
     MemoryLeakWarningPlugin::turnOnDefaultNotThreadSafeNewDeleteOverloads();
     int used = history(depth_before, false);
-    if (ro.slot[fa] == S_NULL) {        // the allocating family is out of memory: the allocation yields nothing to release
+    if (ro.slot[fa] == S_NULL || ro.slot[fa] == S_SIM) {        // the allocating family is out of memory: the allocation yields nothing to release
         MemoryLeakWarningPlugin::turnOffNewDeleteOverloads(); g_capture = false; g_window_inert = false;
         cpputest_malloc_set_not_out_of_memory();
         for (int i = 0; i < npend; i++) cfail(pend[i].sig, pend[i].detail);
@@ -855,7 +857,15 @@ void routing_case(vf::Chooser& ch, int depth_before, int depth_between, int dept
     if (gs) { b.p[b.size + 1] = (char)(b.g0[1] ^ 0x10); say("p[6] overwritten; "); }
     history(depth_total - used < depth_between ? depth_total - used : depth_between, true);
     bool changed = guard_changed(b);
-    bool null_release = ro.slot[fr] == S_NULL;
+    // the releasing family's current allocator at the release:
+    //   stand-in of a running simulation  -> the release is one through the family of the allocator the simulation replaced
+    //   NullUnknownAllocator (installed explicitly, or the allocator the simulation replaced) -> the family "Null Allocator":
+    //                                        a mismatch against every block there is (none can come from it)
+    //   a stand-in left behind by stash.restore after the simulation ended, realloc in any of these states -> not judged
+    int rstate = ro.slot[fr];
+    bool sim_release = rstate == S_SIM && ro.oom_has && ro.oom_orig != S_SIM;
+    bool stale_sim = rstate == S_SIM && !sim_release;
+    bool nullfam = rstate == S_NULL || (sim_release && ro.oom_orig == S_NULL);
     if (!ended) {
         say("%s(p)", rname);
         env.watch(b);
@@ -877,15 +887,14 @@ void routing_case(vf::Chooser& ch, int depth_before, int depth_between, int dept
         if (vf::want_sample()) vf::sample(desc());
         return;
     }
-    Cat want = reference(true, false, fa, fr, T != 0, changed);
-    if (null_release && kind == K_REALLOC) {       // realloc with the null allocator current cannot obtain its record and gives up
-        vf::outcome(vf::fmt("realloc<-%s not-judged(null allocator current) got-%s", FORM_NAME[form], CAT[classify(env.rep)]));   // before looking at the block
+    Cat want = nullfam ? (T ? C_MISMATCH : changed ? C_CORRUPT : C_NONE) : reference(true, false, fa, fr, T != 0, changed);
+    if (stale_sim || ((rstate == S_SIM || rstate == S_NULL) && kind == K_REALLOC)) {       // realloc with an allocator that hands out nothing cannot obtain its record and gives up
+        vf::outcome(vf::fmt("%s<-%s not-judged(%s) got-%s", rname, FORM_NAME[form], stale_sim ? "stand-in without simulation" : "no-memory allocator current", CAT[classify(env.rep)]));   // before looking at the block
         vf::count("ops", nops + 2);
         return;
     }
-    // a release while the null allocator (out-of-memory simulation) is the current allocator of the releasing family is judged by
-    // the same rule but under a signature of its own
-    if (null_release) { env.qual = "/null-allocator-current"; rname = REL_NAME[fr]; }      // one signature per family, not per release form
+    if (nullfam) { env.qual = "/null-allocator-installed"; rname = REL_NAME[fr]; }      // one signature per family, not per release form
+    else if (sim_release) { env.qual = "/null-allocator-current"; rname = REL_NAME[fr]; }
     env.judge(rname, false, want, desc);
     const char* pv = kind == K_GLOBAL ? env.poison_verdict(rname, false, desc) : "n/a";
     env.anomalies();
